@@ -394,6 +394,26 @@ pub fn run_fixed(eng: &mut Eng, time_only: bool) {
                         (In::P, In::P) => Exp::some(f(12.0, 3.0).bits(), vec![tmax]),
                     }
                 };
+                // the same combinators with a sibling instance (other, always present inputs) alive and read
+                // in between: an instance must answer as if it were alone
+                let a2 = rc(Scr::<f32>::new(Ok(Some(Datum::new(Time(t1.saturating_add(1)), 5.0f32)))));
+                let b2 = rc(Scr::<f32>::new(Ok(Some(Datum::new(Time(t0.saturating_sub(1)), 7.0f32)))));
+                macro_rules! beside {
+                    ($ty:ident) => {
+                        guard(|| {
+                            let m = $ty::new(rf(&a), rf(&b));
+                            let sib = $ty::new(rf(&a2), rf(&b2));
+                            let _ = sib.get();
+                            let o1 = obs(&m.get());
+                            let _ = sib.get();
+                            let o2 = obs(&m.get());
+                            let _ = sib.get();
+                            [o1, o2, obs(&m.get())]
+                        })
+                    };
+                }
+                j.check("sum2-beside-another", &case, beside!(Sum2), &exp2(|x, y| x + y), 2);
+                j.check("product2-beside-another", &case, beside!(Product2), &exp2(|x, y| x * y), 2);
                 j.check("sum2", &case, guard(|| three(&Sum2::new(rf(&a), rf(&b)))), &exp2(|x, y| x + y), 2);
                 j.check("product2", &case, guard(|| three(&Product2::new(rf(&a), rf(&b)))), &exp2(|x, y| x * y), 2);
                 // difference / quotient / exponent: first absent => absent, second absent => pass through
@@ -408,6 +428,9 @@ pub fn run_fixed(eng: &mut Eng, time_only: bool) {
                         (In::P, In::P) => Exp::some(f(12.0, 3.0).bits(), vec![tmax]),
                     }
                 };
+                j.check("difference-beside-another", &case, beside!(DifferenceStream), &exp3(|x, y| x - y), 2);
+                j.check("quotient-beside-another", &case, beside!(QuotientStream), &exp3(|x, y| x / y), 2);
+                j.check("exponent-beside-another", &case, beside!(ExponentStream), &exp3(|x, y| crate::refmodels::backend_powf(x, y)), 2);
                 j.check("difference", &case, guard(|| three(&DifferenceStream::new(rf(&a), rf(&b)))), &exp3(|x, y| x - y), 2);
                 j.check("quotient", &case, guard(|| three(&QuotientStream::new(rf(&a), rf(&b)))), &exp3(|x, y| x / y), 2);
                 j.check("exponent", &case, guard(|| three(&ExponentStream::new(rf(&a), rf(&b)))), &exp3(|x, y| crate::refmodels::backend_powf(x, y)), 2);
@@ -605,6 +628,21 @@ pub fn run_fixed(eng: &mut Eng, time_only: bool) {
                     };
                     let mut j = Judge { eng, time_only };
                     j.check("expirer", &case, guard(|| three(&Expirer::new(rf(&a), rf(&t), Time(limit)))), &exp, 2);
+                    // a second expirer with another limit alive on the same inputs and read in between:
+                    // the one under test must answer as if it were alone
+                    for other in [2 * limit + 5, (limit + age_rel - 1).max(0)] {
+                        let g = guard(|| {
+                            let e1 = Expirer::new(rf(&a), rf(&t), Time(limit));
+                            let e2 = Expirer::new(rf(&a), rf(&t), Time(other));
+                            let _ = e2.get();
+                            let o1 = obs(&e1.get());
+                            let _ = e2.get();
+                            let o2 = obs(&e1.get());
+                            let _ = e2.get();
+                            [o1, o2, obs(&e1.get())]
+                        });
+                        j.check("expirer-beside-another", &case, g, &exp, 2);
+                    }
                     if age_rel == 0 && limit == 10 {
                         let exp_nte = match c {
                             In::E(k) => Exp::err(k),
